@@ -278,6 +278,29 @@ def oracle(line, out):
         if back != "ok " + impl.jsonS(data):
             return "json.loads of the rendering differs from the data"
         return None
+    if tok[0] == "paper_text":
+        # the text layer: json() / pprint() (standard output) / export_wallet() (the file as read back; for half of the
+        # cases the path already held an older, longer export) must parse back to exactly the data
+        kind, w, dspec = tok[1], tok[2], tok[3]
+        if v is None or dspec.startswith("p:"):
+            return None
+        try:
+            wal = impl.make_wallet(w)
+        except Exception:
+            return None
+        if dspec in ("-", "empty"):
+            data = wal.generate()
+        else:
+            acct, lo, hi = dspec.split(":")
+            data = wal.generate(account=int(acct), interval=(int(lo), int(hi)))
+        text = unstr(v)
+        try:
+            back = json.loads(text)
+        except ValueError as e:
+            return "what %s wrote is not a JSON document (%s): ...%r" % (kind, e, text[-40:])
+        if back != json.loads(json.dumps(data)):
+            return "what %s wrote does not parse back to the report data" % kind
+        return None
     if tok[0] == "generate":
         w, acct, a, b = tok[1], int(tok[2]), int(tok[3]), int(tok[4])
         seed, testnet, mn, pw = master_of(w)
